@@ -340,6 +340,11 @@ def run_case(case):
                     stats['tol_checked'] = stats.get('tol_checked', 0) + 1
                     if mad > tol: viol.append(('jpg-tolerance', f'{t}: mean abs diff {mad:.2f} > {tol} ({fr["fmt"]} {fr["h"]}x{fr["w"]} {fr.get("tex")})'))
     for k, what in bl.assumption_failures: stats.setdefault('assumption_failures', []).append([k, what])
+    # what the receiving filter then does with its frames: annotate them in place (frame.data['objects'] = ...).  Decoded frames own their data:
+    # nothing a consumer does to one of them may show up in a frame decoded later (every later case of this run would report 'data')
+    for g in back.values():
+        try: g.data['__annotated_by_consumer__'] = case.get('n', 1)
+        except Exception: pass
     return req, obs, viol, stats, bl
 
 
@@ -545,7 +550,8 @@ def run(ctx):
     reuse_campaign(ctx, 3000 if ctx.thorough else 300)
     if ctx.replay and ctx.replay.get('case', {}).get('kind') == 'reuse': return
     if ctx.replay:
-        cases = [ctx.replay['case']] if ctx.replay.get('case') else []
+        # twice: a failure may need the consumer-side annotation of an earlier decoded frame (state shared between decoded frames)
+        cases = [ctx.replay['case'], ctx.replay['case']] if ctx.replay.get('case') else []
     else:
         n = 200000 if ctx.thorough else (15000 if ctx.escalate else 5000)
         cases = [c['case'] if 'case' in c else c for c in ctx.corpus if (c.get('case') or c).get('kind') != 'reuse']
